@@ -599,6 +599,32 @@ func genPipeDoc(r *Run, nd bool) (doc []byte, desc string) {
 		}
 		return append([]byte(nil), b.Bytes()...), fmt.Sprintf("dense-then-long-token size=%d", b.Len())
 	}
+	if !nd && c.Intn("quietstretch", 12) == 0 {
+		// dense content, then a long stretch without any structural character (a huge string or white space), then
+		// dense content again: stage 1 crosses the stretch while earlier buffers are still unconsumed
+		var b bytes.Buffer
+		item := func() { b.WriteString([]string{"[],", "{},", "0,", "[[]],", "\"a\",", " 1 ,"}[c.Intn("qsi", 6)]) }
+		b.WriteByte('[')
+		for pre := 15000 + c.Intn("qspre", 60000); b.Len() < pre; {
+			item()
+		}
+		quiet := 280000 + c.Intn("qslen", 500000)
+		if r.thorough() {
+			quiet = 280000 + c.Intn("qslenT", 2500000)
+		}
+		if c.Intn("qskind", 3) == 0 {
+			b.Write(bytes.Repeat([]byte{' '}, quiet))
+		} else {
+			b.WriteByte('"')
+			b.Write(bytes.Repeat([]byte("ab"), quiet/2))
+			b.WriteString("\",")
+		}
+		for post := b.Len() + 30000 + c.Intn("qspost", 80000); b.Len() < post; {
+			item()
+		}
+		b.WriteString("0]")
+		return append([]byte(nil), b.Bytes()...), fmt.Sprintf("quiet-stretch size=%d (quiet %d)", b.Len(), quiet)
+	}
 	if c.Intn("defect", 3) == 0 {
 		kind := c.Intn("defkind", defCount)
 		pos := c.Intn("defpos", 4)
@@ -613,6 +639,13 @@ func judgeOutcome(r *Run, doc []byte, cfg parseCfg, o parseOutcome, ref RefResul
 	if o.panicV != nil {
 		r.violate("panic", panicSig(o.panicV), fmt.Sprintf("%s: %v", what, o.panicV))
 		return
+	}
+	if o.ok && o.pj != nil {
+		// whatever the reference says about the input: an accepted parse exports a well-formed tape
+		if err := CheckTape(o.pj, false); err != nil {
+			r.violate("tape", "invariant", fmt.Sprintf("%s: %v", what, err))
+			return
+		}
 	}
 	if ref.Ambiguous {
 		r.stat("ambiguous_skipped", 1)
